@@ -73,9 +73,7 @@ def plain(n):
     if tag != P + 'map':
         raise CtorFail('collection tag ' + tag)
     d = {}
-    for a, b in v:
-        if a[0] == 's' and a[1] == P + 'merge':
-            raise CtorFail('merge key')          # left to PyYAML, not modelled
+    for a, b in flat_pairs(n):
         key = plain(a)
         try:
             hash(key)
@@ -83,6 +81,32 @@ def plain(n):
             raise CtorFail('unhashable key')
         d[key] = plain(b)
     return d
+
+
+def flat_pairs(n):
+    """the (key, value) pairs of a mapping after PyYAML's merge-key flattening (SafeConstructor.flatten_mapping):
+    pairs merged in through '<<' come first, the mapping's own pairs follow (and so win)"""
+    merge = []
+    own = []
+    for a, b in n[2]:
+        if a[0] == 's' and a[1] == P + 'merge':
+            if b[0] == 'm':
+                merge.extend(flat_pairs(b))
+            elif b[0] == 'q':
+                sub = []
+                for it in b[2]:
+                    if it[0] != 'm':
+                        raise CtorFail('merge of a non-mapping')
+                    sub.append(flat_pairs(it))
+                for pairs in reversed(sub):
+                    merge.extend(pairs)
+            else:
+                raise CtorFail('merge of a scalar')
+        elif a[0] == 's' and a[1] == P + 'value':
+            own.append((('s', P + 'str', a[2]), b))
+        else:
+            own.append((a, b))
+    return merge + own
 
 
 # ---------------------------------------------------------------- reference seasoning on trees
